@@ -707,3 +707,13 @@ package syntax
 //@ func syntax.RefExp.resolveType property C07
 //@   requires exp != nil && global != nil
 //@   ensures @dims isnil(result.2) && ghost(ftcalls)[0] == old(ghost(ftcalls)[0]) + 1 ==> (result.0.ArrayDim == ghost(lastftA)[0] && result.0.MapDim == ghost(lastftM)[0]) || (result.0.ArrayDim == ghost(lastftA)[0] + 1 && result.0.MapDim == ghost(lastftM)[0]) || (ghost(lastftM)[0] == 0 && result.0.ArrayDim == 0 && result.0.MapDim == ghost(lastftA)[0] + 1)
+
+// ---------------------------------------------------------------- C10 comparators
+// The comparators handed to package sort read these through interfaces; both are getters
+// (every implementation returns a field), hence functions of the receiver.
+//@ iface syntax.AstNodable.Line property C10
+//@   pure
+//@   opt deterministic on
+//@ iface syntax.Type.TypeId property C10
+//@   pure
+//@   opt deterministic on
